@@ -5,6 +5,7 @@ import ClairModel.Lib.OrderC03
 import ClairModel.Model.Matchers
 import ClairModel.Proofs.VerRpm
 import ClairModel.Proofs.VerDeb
+import ClairModel.Proofs.VerApk
 
 namespace ClairModel.Matchers
 open ClairModel.Order ClairModel.OrderC03 ClairModel.VerCommon
